@@ -1308,21 +1308,23 @@ fn main() {
             vec![]
         } else {
             vec![
-                ("images_judged", 20_000),
-                ("images_inside_a_record", 10_000),
-                ("phases_judged", 1_000),
+                ("images_judged", 100_000),
+                ("images_inside_a_record", 80_000),
+                ("phases_judged", 800),
                 ("chain_restarts", 500),
-                ("crashes_inside_a_record", 200),
-                ("votes_granted", 300),
-                ("vote_obligations_checked", 2_000),
-                ("entry_obligations_checked", 10_000),
-                ("term_obligations_checked", 10_000),
-                ("conflict_truncations", 50),
-                ("proposals_accepted", 50),
-                ("elections_started", 200),
-                ("vote_probes", 1_000),
+                ("crashes_inside_a_record", 300),
+                ("chains_with_2_crashes_completed", 20),
+                ("chains_with_3_crashes_completed", 5),
+                ("votes_granted", 500),
+                ("vote_obligations_checked", 20_000),
+                ("entry_obligations_checked", 100_000),
+                ("term_obligations_checked", 100_000),
+                ("conflict_truncations", 150),
+                ("proposals_accepted", 60),
+                ("elections_started", 400),
+                ("vote_probes", 20_000),
                 ("ack_boundary_shape_checks", 2_000),
-                ("snapshots_installed", 50),
+                ("snapshots_installed", 80),
             ]
         },
         exhaustive: false,
